@@ -885,4 +885,124 @@ Proof.
     apply short_nil; exact Hc.
 Qed.
 
+Definition rec_fits (cap : N) (s : state) (r : rcd) : Prop :=
+  gv_fits cap r /\
+  (forall i, s = Params i 0 0 -> rt r = RT_Params -> rid r = r_id (ireq i) ->
+     forall k, len (snd (nv_run (ibuf i ++ take k (rbody r)))) < cap).
+
+Lemma len_take_le {A} k (l : list A) : len (take k l) <= k.
+Proof. rewrite len_take. lia. Qed.
+
+Lemma partial_header cap f r k : rcd_ok r -> 0 < cap -> gv_fits cap r ->
+  (exists s', rec_step norm Header r = RNext s') -> 8 <= k -> k < len (rbody r) + len (rpad r) ->
+  short cap (drive norm maxc (S (S f)) Header (hdr8 r ++ take k (rbody r ++ rpad r)) []).
+Proof.
+  intros Hr Hc Hgv [s' Hnf] Hk8 Hk. set (d := take k (rbody r ++ rpad r)).
+  assert (Hd : len d < len (rbody r) + len (rpad r)) by (pose proof (len_take_le k (rbody r ++ rpad r)); fold d in H; lia).
+  rewrite drive_S_nf by reflexivity. cbn [drive1]. unfold rec_step in Hnf.
+  destruct (known_type (rt r)) eqn:Hkt; cbn [negb] in Hnf.
+  2:{ rewrite header_drive_unknown by assumption. unfold header_skip_to.
+      apply tail_skip_short; [apply HeaderSkip_drive1|reflexivity|exact Hc|exact Hd]. }
+  destruct (N.eqb_spec (rt r) RT_BeginRequest) as [Hb|Hb].
+  - destruct (N.eqb_spec (len (rbody r)) 8) as [Hl|Hl]; cbn [negb] in Hnf; [|discriminate].
+    destruct (take_prefix_cases k (rbody r) (rpad r) Hk) as [(H1 & _)|(H1 & H2 & H3 & H4)]; [lia|].
+    unfold d. rewrite H2. rewrite header_drive_begin by assumption.
+    rewrite begin_decode_cases in *. cbv zeta in *.
+    destruct (known_role (be16 (nthN (rbody r) 0) (nthN (rbody r) 1))).
+    + destruct (N.eqb_spec (rid r) 0); [discriminate|].
+      apply tail_pad_short; [exact Hc|lia].
+    + unfold header_skip_to. apply tail_skip_short; [apply HeaderSkip_drive1|reflexivity|exact Hc|lia].
+  - rewrite header_drive_other by assumption.
+    destruct ((rt r =? RT_GetValues) && (rid r =? 0)) eqn:Hg.
+    + apply andb_true_iff in Hg as [Hg1 Hg2]. apply N.eqb_eq in Hg1, Hg2.
+      apply (tail_values_short cap f HeaderValues Header); [reflexivity|reflexivity|exact Hc|exact (Hgv Hg1 Hg2)|exact Hk].
+    + unfold header_skip_to. apply tail_skip_short; [apply HeaderSkip_drive1|reflexivity|exact Hc|exact Hd].
+Qed.
+
+Lemma partial_params cap f i r k : inner_ok i -> len (ibuf i) < SIZE_LIMIT -> rcd_ok r -> 0 < cap ->
+  rec_fits cap (Params i 0 0) r -> k < len (rbody r) + len (rpad r) ->
+  short cap (drive norm maxc (S (S f)) (Params i 0 0) (hdr8 r ++ take k (rbody r ++ rpad r)) []).
+Proof.
+  intros Hi Hsm Hr Hc [Hgv Hpf] Hk. set (d := take k (rbody r ++ rpad r)).
+  pose proof Hr as (_ & _ & Hbl & _ & Hbok & _).
+  assert (Hd : len d < len (rbody r) + len (rpad r)) by (pose proof (len_take_le k (rbody r ++ rpad r)); fold d in H; lia).
+  rewrite drive_S_nf by reflexivity. cbn [drive1]. rewrite params_drive_00.
+  assert (Fskip : forall o, short cap (drive_tail (S f) (params_skip_to i (len (rbody r)) (len (rpad r))) d ([] ++ o))).
+  { intros o. unfold params_skip_to. apply tail_skip_short; [apply ParamsSkip_drive1|reflexivity|exact Hc|exact Hd]. }
+  destruct (known_type (rt r)) eqn:Hkt.
+  2:{ rewrite p_head_unknown by assumption. apply Fskip. }
+  rewrite p_head_known by assumption. cbv zeta.
+  destruct ((rt r =? RT_Params) && (rid r =? r_id (ireq i))) eqn:C1.
+  { apply andb_true_iff in C1 as [C1 C1']. apply N.eqb_eq in C1, C1'.
+    destruct (N.eqb_spec (len (rbody r)) 0) as [Hl|Hl].
+    - apply tail_skip_short; [apply DoneSkip_drive1|reflexivity|exact Hc|lia].
+    - apply tail_params_short; try assumption; [|lia|exact (Hpf i eq_refl C1 C1')].
+      apply small_usize. rewrite len_app. lia. }
+  destruct ((rt r =? RT_AbortRequest) && (rid r =? r_id (ireq i))).
+  { unfold header_skip_to. apply tail_skip_short; [apply HeaderSkip_drive1|reflexivity|exact Hc|exact Hd]. }
+  destruct ((rt r =? RT_BeginRequest) && negb (rid r =? r_id (ireq i))); [apply Fskip|].
+  destruct ((rt r =? RT_GetValues) && (rid r =? 0)) eqn:Hg; [|apply Fskip].
+  apply andb_true_iff in Hg as [Hg1 Hg2]. apply N.eqb_eq in Hg1, Hg2.
+  apply (tail_values_short cap f (ParamsValues i) (Params i 0 0)); [reflexivity|reflexivity|exact Hc|exact (Hgv Hg1 Hg2)|exact Hk].
+Qed.
+
+Lemma partial_bnd cap f s r ph k : state_ok s -> state_small s -> boundary_phase s = Some ph -> rcd_ok r ->
+  0 < cap -> rec_fits cap s r -> (exists s', rec_step norm s r = RNext s') ->
+  8 <= k -> k < len (rbody r) + len (rpad r) ->
+  short cap (drive norm maxc (S (S f)) s (hdr8 r ++ take k (rbody r ++ rpad r)) []).
+Proof.
+  intros Hok Hsm Hb Hr Hc Hfit Hnf Hk8 Hk.
+  destruct s as [| p q | v p q | i p q | i p q | i v p q | rq p q | rq | e]; cbn [boundary_phase] in Hb;
+    try discriminate.
+  - apply partial_header; try assumption. exact (proj1 Hfit).
+  - destruct p as [|p]; [destruct q as [|q]|]; try discriminate.
+    cbn [state_ok state_small] in *. apply partial_params; try assumption; tauto.
+Qed.
+
+Lemma rec_fits_settle_eq cap s s' r : s = s' -> rec_fits cap s r -> rec_fits cap s' r.
+Proof. intros ->. trivial. Qed.
+
+(* any proper prefix of a (non-fatal) record, from a record boundary: the parser does not finish and
+   holds back fewer than [cap] bytes *)
+Lemma partial_rec cap s r ph x y :
+  24 <= cap -> state_ok s -> state_small s -> boundary_phase (settle s) = Some ph -> rcd_ok r ->
+  rec_fits cap (settle s) r -> (exists s', rec_step norm (settle s) r = RNext s') ->
+  enc_rcd r = x ++ y -> y <> [] ->
+  exists rest s1 o1, drive_all norm maxc s x = DOk rest s1 o1 /\ len rest < cap /\ is_final s1 = false.
+Proof.
+  intros Hc Hok Hsm Hb Hr Hfit Hnf Hxy Hy.
+  assert (Hbx : bytes_ok x /\ bytes_ok y).
+  { apply bytes_ok_app. rewrite <- Hxy. apply bytes_ok_enc_rcd; exact Hr. }
+  destruct Hbx as [Hbx Hby].
+  assert (Hlen : len x + len y = 8 + len (rbody r) + len (rpad r)).
+  { rewrite <- len_app, <- Hxy. apply len_enc_rcd. }
+  assert (Hy' : 0 < len y) by (apply ne_len_pos; exact Hy).
+  pose proof Hr as (_ & _ & Hbl & Hpl & _).
+  assert (Hxs : len x < SIZE_LIMIT) by (unfold SIZE_LIMIT; lia).
+  assert (Hshort : short cap (drive_all norm maxc s x)).
+  { destruct (N.ltb_spec (len x) cap) as [Hlt|Hge].
+    - destruct (HDT s x Hok Hsm Hbx Hxs) as (rest & s1 & o1 & Hd & _ & _ & [c Hc'] & _).
+      exists rest, s1, o1. split; [exact Hd|]. rewrite Hc', len_app in Hlt. lia.
+    - assert (Ex : x = hdr8 r ++ take (len x - 8) (rbody r ++ rpad r)).
+      { transitivity (take (len x) (enc_rcd r)); [rewrite Hxy; symmetry; apply take_len_app|].
+        rewrite enc_rcd_eq. rewrite take_app_ge by (rewrite len_hdr8; lia).
+        rewrite len_hdr8. reflexivity. }
+      unfold drive_all, drive_fuel.
+      replace (2 * length x + 4)%nat with (S (S (S (2 * length x + 1)))) by lia.
+      destruct (settle_bnd_cases s ph Hb) as [[E Hb']|[Hf Hd]].
+      + rewrite Ex. rewrite E in *. apply (partial_bnd cap _ s r ph); try assumption; lia.
+      + rewrite (drive_cont _ s _ [] _ _ [] Hf (Hd _)).
+        rewrite drive_tail_ne by (apply len_pos_ne; lia). cbn [app]. rewrite Ex.
+        apply (partial_bnd cap _ (settle s) r ph); try assumption; try lia.
+        * apply settle_state_ok; exact Hok.
+        * apply state_small_sbuf. rewrite settle_sbuf. apply state_small_sbuf. exact Hsm. }
+  destruct Hshort as (rest & s1 & o1 & Hd & Hl). exists rest, s1, o1. split; [exact Hd|]. split; [exact Hl|].
+  destruct (is_final s1) eqn:Hfin; [exfalso|reflexivity].
+  pose proof (rec_step_settle s r ph Hok Hsm Hb Hr) as H1. destruct Hnf as [s' Hnf]. rewrite Hnf in H1.
+  destruct H1 as (s'' & Hdr & _). rewrite Hxy in Hdr.
+  rewrite HA in Hdr; try assumption; [|rewrite len_app; unfold SIZE_LIMIT; lia].
+  rewrite Hd in Hdr. rewrite drive_all_final in Hdr by exact Hfin. injection Hdr as E1 _ _.
+  apply app_eq_nil in E1 as [_ E1]. contradiction.
+Qed.
+
 End Records.
